@@ -60,7 +60,12 @@ impl ToTokens for ValuePopulator<'_> {
     fn to_tokens(&self, tokens: &mut proc_macro2::TokenStream) {
         let ForwardedField { ident, with } = self.0;
         let initializer_expr = match with {
-            Some(with) => quote_spanned!(with.span()=> __errors.handle(#with(__fwd_attrs))),
+            // Borrow the location of `with`, not its hygiene: `__errors` and `__fwd_attrs` are
+            // declared where the derive was written.
+            Some(with) => {
+                let span = proc_macro2::Span::call_site().located_at(with.span());
+                quote_spanned!(span=> __errors.handle(#with(__fwd_attrs)))
+            }
             None => quote!(::darling::export::Some(__fwd_attrs)),
         };
         tokens.append_all(quote!(#ident = #initializer_expr;));
